@@ -170,6 +170,40 @@ fn run_inf_bounds(s: &mut Sink) {
     }
 }
 
+/// a NaN probe is a value of the float type that belongs to no interval (it satisfies no
+/// comparison); both views of every float interval must say so ("same membership for every
+/// value")
+fn run_nan_probes(s: &mut Sink) {
+    fn go<F: num_traits::Float + Debug>(name: &str, s: &mut Sink) {
+        let vals = [F::neg_infinity(), F::from(-1.5).unwrap(), F::neg_zero(), F::zero(), F::min_positive_value(), F::one(), F::max_value(), F::infinity()];
+        let nan = F::nan();
+        let mut ivs: Vec<Interval<F>> = vec![];
+        for (i, a) in vals.iter().enumerate() {
+            for b in &vals[i..] {
+                ivs.push(Interval::TwoSided(*a, *b));
+            }
+            ivs.push(Interval::UpperOneSided(*a));
+            ivs.push(Interval::LowerOneSided(*a));
+        }
+        for (k, iv) in ivs.iter().enumerate() {
+            s.evals += 1;
+            s.calls += 2;
+            let got = iv.contains(&nan);
+            let got_rb = <Interval<F> as RangeBounds<F>>::contains(iv, &nan);
+            s.outcome(&("nan-probe", got, got_rb));
+            let case = json!({"check":"nanprobe","type":name,"k":k});
+            if got {
+                s.violation(format!("contains/NaN-probe/{name}"), format!("{iv:?}.contains(NaN) = true: NaN is a member of no interval"), case.clone());
+            }
+            if got_rb {
+                s.violation(format!("rangebounds-contains/NaN-probe/{name}"), format!("RangeBounds::contains({iv:?}, NaN) = true"), case);
+            }
+        }
+    }
+    go::<f64>("f64", s);
+    go::<f32>("f32", s);
+}
+
 fn run_all(n: usize, s: &mut Sink) {
     run_chain(&chain_i32(n), s);
     run_chain(&chain_u8(n), s);
@@ -197,6 +231,7 @@ fn replay_case(case: &Value, s: &mut Sink) {
     }
     match (case["check"].as_str().unwrap_or(""), ty) {
         ("infprobe", _) | ("infpair", _) => run_inf_bounds(s),
+        ("nanprobe", _) => run_nan_probes(s),
         (_, "i32") => go!(chain_i32(n)),
         (_, "u8") => go!(chain_u8(n)),
         (_, "f64") => go!(chain_f64(n)),
@@ -217,6 +252,7 @@ fn main() {
     let mut s = Sink::new();
     run_all(9, &mut s);
     run_inf_bounds(&mut s);
+    run_nan_probes(&mut s);
     {
         let _ = tier;
         // redundancy check of the small-scope argument: a longer chain must not change anything
@@ -225,9 +261,9 @@ fn main() {
     s.sample(json!({"type":"i32","a":{"Two":[2,5]},"b":{"Upper":4},"calls":["intersects","intersects(rev)","includes","is_included_in"]}));
     s.sample(json!({"type":"f64","a":{"Lower":3},"probe":"+0.0 (value index 4)","calls":["contains","RangeBounds::contains","start_bound","end_bound"]}));
     s.sample(json!({"type":"&str","a":{"Two":[1,1]},"b":{"Two":[1,6]},"note":"degenerate vs shared endpoint"}));
-    rep.rule = "every interval of the three kinds with bounds in the inner positions of a 9-chain and again of an 11-chain (redundancy check of the small-scope argument) x every ordered pair x every probe value (outer positions included), for i32,u8,f64(+-0, subnormal, +-inf probes),f32,char,&str,String; plus float two-sided intervals with infinite bounds; a case is distinct by (kinds, observed results, expected relations)".into();
+    rep.rule = "every interval of the three kinds with bounds in the inner positions of a 9-chain and again of an 11-chain (redundancy check of the small-scope argument) x every ordered pair x every probe value (outer positions included), for i32,u8,f64(+-0, subnormal, +-inf probes),f32,char,&str,String; plus float two-sided intervals with infinite bounds, and a NaN probe against every float interval over 8 boundary values (member of none, in both views); a case is distinct by (kinds, observed results, expected relations)".into();
     rep.assume("parametricity: predicates inspect T only through comparisons, so a chain realising all order types of <=4 bounds + 1 probe decides all totally ordered T (DESIGN §5)");
-    rep.assume("NaN bounds are outside the property's quantifier and are not enumerated");
+    rep.assume("NaN *bounds* are outside the property's quantifier and are not enumerated; a NaN *probe* is a value of the element type and belongs to no interval");
     rep.require(s.distinct() >= 20, "fewer than 20 distinct (kind, outcome) classes: vacuous");
     std::process::exit(rep.finish(s));
 }
